@@ -20,6 +20,7 @@ def main():
     ap.add_argument("-j", type=int, default=None)
     a = ap.parse_args()
     seed = int(os.environ.get("VERIF_SEED", "0"))
+    os.environ["VERIF_TIER"] = a.tier  # the per-configuration watchdog of the workers depends on it
     if a.tier == "thorough":
         os.environ.setdefault("VERIF_SOLVER_TIMEOUT_MS", "900000")  # inherited by the worker processes
         os.environ.setdefault("VERIF_CROSSCHECK", "2")  # per configuration, re-check up to 2 unsat property queries with cvc5
